@@ -106,15 +106,15 @@ func TestC17(t *testing.T) {
 			}
 		}
 		// several reads on one connection, an ordinary read in between (cursor independence)
-		run(im.name, []Req{mkReq(opOpenFile, "/" + im.name), cdReq(3, 2), rdcReq(100, 50), cdReq(0, 1), cdReq(17, 3)})
-		run(im.name, []Req{mkReq(opOpenFile, "/" + im.name), mkReq(opOpenFile, "/CLOSEFILE"), cdReq(0, 1)})
+		run(im.name, []Req{mkReq(opOpenFile, "/"+im.name), cdReq(3, 2), rdcReq(100, 50), cdReq(0, 1), cdReq(17, 3)})
+		run(im.name, []Req{mkReq(opOpenFile, "/"+im.name), mkReq(opOpenFile, "/CLOSEFILE"), cdReq(0, 1)})
 		// re-opening images of a different sector size on one connection
 		for j, other := range imgs {
 			if other.size != 0x200000 || other.sector == im.sector || im.size != 0x200000 || (!r.Thorough() && (i+j)%3 != 0) {
 				continue
 			}
 			mkCDImage(w.Root, other, byte(j+1))
-			run(im.name+"+"+other.name, []Req{mkReq(opOpenFile, "/" + im.name), cdReq(1, 2), mkReq(opOpenFile, "/" + other.name), cdReq(1, 2), mkReq(opOpenFile, "/nope"), cdReq(0, 1)})
+			run(im.name+"+"+other.name, []Req{mkReq(opOpenFile, "/"+im.name), cdReq(1, 2), mkReq(opOpenFile, "/"+other.name), cdReq(1, 2), mkReq(opOpenFile, "/nope"), cdReq(0, 1)})
 			os.Remove(filepath.Join(w.Root, other.name))
 		}
 		// the image is replaced under the same path by a dump with another raw sector size while the server
@@ -127,7 +127,7 @@ func TestC17(t *testing.T) {
 				repl := other
 				repl.name = im.name
 				swap := func() { mkCDImage(w.Root, repl, byte(j+1)) }
-				reqs := []Req{mkReq(opOpenFile, "/" + im.name), cdReq(1, 2), mkReq(opOpenFile, "/" + im.name), cdReq(1, 2), cdReq(16, 1), mkReq(opOpenFile, "/CLOSEFILE"), mkReq(opOpenFile, "/" + im.name), cdReq(2, 1)}
+				reqs := []Req{mkReq(opOpenFile, "/"+im.name), cdReq(1, 2), mkReq(opOpenFile, "/"+im.name), cdReq(1, 2), cdReq(16, 1), mkReq(opOpenFile, "/CLOSEFILE"), mkReq(opOpenFile, "/"+im.name), cdReq(2, 1)}
 				m := newModel(w.Root, false)
 				res := runSession(t, SrvOpts{Root: w.Root}, m, reqs, Delivery{Before: map[int]func(){2: swap}})
 				r.Transition(int64(len(res.Steps)))
